@@ -121,6 +121,29 @@ func checkC11Stress(s *StressCase) *Outcome {
 	return o
 }
 
+// whatever yae's own pipeline accepts - programs mutated towards ill-typedness included (C05's
+// catalogue: duplicate fields, mistyped operands, empty containers, user overloads) - compiles to
+// bytecode that verifies; what it refuses is not this property's subject
+func checkC11Accepted(c *TypingCase) *Outcome {
+	pc := &c.ProgCase
+	src := m.Print(pc.E, pc.Print)
+	prog, err, p := compileCapturing(pc, src)
+	if p != nil || err != nil || prog == nil {
+		return ok(false, "refused-by-yae")
+	}
+	st := &run.BCStats{}
+	if verr := run.VerifyProgram(*prog, st); verr != nil {
+		return bad("emitted bytecode is unsafe: %v\n src: %s\n mutation: %s", verr, clip(src), c.Mutation)
+	}
+	cls := "accepted-unmutated"
+	if c.Mutation != "" {
+		cls = "accepted-after-mutation"
+	}
+	return ok(c.Mutation != "" && (st.Jumps > 0 || st.Thunks > 0 || len(prog.Code) > 8), cls)
+}
+
+var c11acc = Register(&Prop[TypingCase]{ID: "C11", Name: "whatever-compiles", Gen: genTypingCase, Check: checkC11Accepted})
+
 var c11opt = gen.ProgOpt{Fuel: 5, Partial: true, Sugar: true, Maybe: true, Times: true, Harness: true, Poison: true, NonFinite: true}
 
 var c11 = Register(&Prop[ProgCase]{ID: "C11", Name: "bytecode-verifier", Gen: genProgCase(c11opt, run.StdHarness), Check: checkC11})
@@ -128,7 +151,7 @@ var c11ops = Register(&Prop[OpCase]{ID: "C11", Name: "small-programs", Check: ch
 var c11stress = Register(&Prop[StressCase]{ID: "C11", Name: "stress", Check: checkC11Stress})
 
 func TestC11(t *testing.T) {
-	R.Rule = "accepted programs: all single applications of every built-in over small pools (exhaustive within the pools), random programs of fuel 5 with intrinsics, conditionals and harness-registered strict and lazy functions, and stress classes (literals with 43..600 and, thorough, 65 535 / 65 536 members, calls of strict and lazy host functions with 254..257 arguments, > 255 constants, conditionals whose arms exceed 255 bytes, nested thunks); oracle: bytecode verifier over the hook's (code, constants) and recursively every thunk body - complete decode into known instructions, operand range and kind, jump targets later and on a boundary, one stack depth per instruction on all paths, deferred arguments are thunk constants, exactly 1 at the final reachable RETURN, longest path <= #instructions; non-trivial = code with a jump, a thunk, or an operand > 255"
+	R.Rule = "accepted programs: all single applications of every built-in over small pools (exhaustive within the pools), random programs of fuel 5 with intrinsics, conditionals and harness-registered strict and lazy functions, and stress classes (literals with 43..600 and, thorough, 65 535 / 65 536 members, calls of strict and lazy host functions with 254..257 arguments, > 255 constants, conditionals whose arms exceed 255 bytes, nested thunks); plus programs mutated towards ill-typedness (C05's catalogue) whenever yae itself accepts them; oracle: bytecode verifier over the hook's (code, constants) and recursively every thunk body - complete decode into known instructions, operand range and kind, jump targets later and on a boundary, one stack depth per instruction on all paths, deferred arguments are thunk constants, exactly 1 at the final reachable RETURN, longest path <= #instructions; non-trivial = code with a jump, a thunk, or an operand > 255"
 	R.Assume = []string{"the per-opcode stack effects in run/bcverify.go (DESIGN.md Appendix B)", "hook vm.VerifCompile returns the program vm.Compile would run"}
 	reportKnown(t, "C11")
 	runRegress(t, "C11")
@@ -139,6 +162,7 @@ func TestC11(t *testing.T) {
 	c11stress.Each(t, "stress-classes", eachStress(big))
 	c11ops.Each(t, "single-applications", eachOpCase(false, 150))
 	c11.Run(t, budget(10000, 480000))
+	c11acc.Run(t, budget(4000, 200000))
 }
 
 var _ = m.Num
